@@ -717,4 +717,22 @@ pub proof fn lemma_legs_end(ms: Seq<MatchResult>, txs: Seq<GbpTransaction>, inpu
     }
 }
 
+
+// ---------- corporate actions of a day: every SPLIT/UNSPLIT line rescales the pool of its own security, in line order
+pub open spec fn pool_q(p: Map<Seq<char>, Section104Holding>, t: Seq<char>) -> real { if p.contains_key(t) { p[t].quantity.v() } else { 0real } }
+pub open spec fn ca_fold(txs: Seq<GbpTransaction>, a: int, b: int, t: Seq<char>, q: real) -> real
+    decreases b - a
+{
+    if b <= a { q } else { let q1 = ca_fold(txs, a, b - 1, t, q); if txs[b - 1].ticker@ == t { ratio_effect(txs[b - 1], q1) } else { q1 } }
+}
+pub proof fn lemma_ratio_effect_zero(tx: GbpTransaction)
+    ensures ratio_effect(tx, 0real) == 0real
+{
+    match tx.operation {
+        Operation::Split { ratio } => { let r = ratio.v(); assert(0real * r == 0real) by(nonlinear_arith); }
+        Operation::Unsplit { ratio } => { let r = ratio.v(); if r != 0real { assert(0real / r == 0real) by(nonlinear_arith) requires r != 0real; } }
+        _ => {}
+    }
+}
+
 } // verus!
